@@ -71,6 +71,10 @@ func (cl *Cluster) modeBackground() {
 
 func (cl *Cluster) modeCheck(e *event) {
 	c := cl.c
+	if cl.mode == ModeProposer {
+		cl.proposerCheck()
+		return
+	}
 	if cl.mode != ModeValidation {
 		return
 	}
@@ -187,4 +191,49 @@ func (cl *Cluster) finish() {
 		sample["trace_tail"] = tr
 	}
 	c.Sample(sample)
+}
+
+// proposerCheck is the cluster part of C17: correct nodes at the same height
+// and round agree on the proposer however they got there, and a correct
+// proposer's account of the previous height's rounds (FaultValidatorsEvidence)
+// is accepted by every correct node.
+func (cl *Cluster) proposerCheck() {
+	c := cl.c
+	type hr struct {
+		H uint64
+		R int
+	}
+	seen := map[hr]string{}
+	who := map[hr]int{}
+	for _, n := range cl.honest() {
+		if !n.alive || n.failed || n.cs == nil {
+			continue
+		}
+		rs := n.roundState()
+		if n.cs.VerifStepRecover() || rs.Validators == nil {
+			continue
+		}
+		k := hr{rs.Height, rs.Round}
+		p := hexOf(rs.Validators.GetProposer().Address)
+		c.Evals(1)
+		if rs.Round > 0 {
+			c.Probe("proposer-compared-at-round>0")
+		}
+		if q, ok := seen[k]; ok && q != p {
+			c.Violate("proposer-disagreement", "C17/proposer-disagreement", "nodes %d and %d are both at H=%d R=%d but expect different proposers (%s vs %s)", who[k], n.idx, k.H, k.R, q[:8], p[:8])
+			return
+		}
+		seen[k], who[k] = p, n.idx
+		if n.fveRejected != "" {
+			msg := n.fveRejected
+			n.fveRejected = ""
+			if rs.ProposalBlockParts != nil {
+				if from, ok := cl.orc.honestProposals[rs.ProposalBlockParts.Header().String()]; ok {
+					c.Violate("honest-evidence-rejected", "C17/honest-fault-validators-evidence-rejected", "node %d rejected the FaultValidatorsEvidence of a block proposed by correct node %d at H=%d: %s", n.idx, from, rs.Height, msg)
+					return
+				}
+			}
+			c.Probe("byzantine-fault-validators-evidence-rejected")
+		}
+	}
 }
